@@ -1,7 +1,7 @@
 (* Correspondence check and implementation-side monitor for C19 (executable, no proofs).
    A case is what the harness observed on the real ConvertUndDenomination:
    (input, direction, first output, output of converting the first output back). *)
-From MC Require Import lib.Prelude model.Denom.
+From MC Require Import lib.Prelude lib.CheckLib model.Denom.
 From Coq Require Import NArith.
 Open Scope string_scope.
 
@@ -51,12 +51,6 @@ Definition denom_mon_ok (c : denom_case) : bool :=
             && opt_string_eqb o2 (Some (print_N ip ++ "nund"))
           else true
       end
-  end.
-
-Fixpoint bad_indices {A} (f : A -> bool) (i : nat) (l : list A) : list nat :=
-  match l with
-  | [] => []
-  | x :: r => if f x then bad_indices f (S i) r else i :: bad_indices f (S i) r
   end.
 
 Definition denom_bad_corr (l : list denom_case) : list nat := bad_indices denom_corr_ok 0 l.
